@@ -663,4 +663,44 @@ def langDeliver {β ι} (pad : β) (tok : β → β) (data : Nat → List β × 
   (if p.batchFirst then langCollate pad p.sortBatch items else langCollateTF pad p.sortBatch items,
    p.batchFirst, !p.suppressUttids)
 
+/-! ## The shuffling seed, reassigned after construction
+
+`loader.batch_sampler.sampler.base_seed` is a public attribute of `EpochRandomSampler`: the ordering
+of epoch `e` is `RandomState((self.base_seed, e)).permutation(total)`, drawn afresh WHENEVER it is
+asked for (a pass, `len()` of a bucketed loader, `get_samples_for_epoch(e)`) - nothing derived from an
+earlier value of the attribute is kept on the object. So the ordering source of a loader is a function
+`src : seed → epoch → ordering`, and every operation reads it at the seed stored AT THAT MOMENT. A
+layer above `View` (whose operations and lemmas are untouched). -/
+
+/-- A loader view together with the `base_seed` currently stored on its epoch sampler. -/
+structure Seeded where
+  view : View
+  seed : Nat
+
+inductive SOp where
+  | v (op : VOp)          -- any operation of the `View` language
+  | setSeed (s : Nat)     -- `loader.batch_sampler.sampler.base_seed = s`
+  deriving Repr, DecidableEq
+
+/-- One operation: a `View` operation runs on the orderings of the seed stored NOW; an assignment of
+the seed only stores the value (it shows nothing: `none`). -/
+def Seeded.step (src : Nat → Nat → List Nat) (op : SOp) (z : Seeded) : Option (Out × Present) × Seeded :=
+  match op with
+  | .v o =>
+    let r := View.step (src z.seed) o z.view
+    (some r.1, ⟨r.2, z.seed⟩)
+  | .setSeed s => (none, ⟨z.view, s⟩)
+
+def Seeded.exec (src : Nat → Nat → List Nat) :
+    List SOp → Seeded → List (SOp × Option (Out × Present)) × Seeded
+  | [], z => ([], z)
+  | op :: ops, z =>
+    let r := Seeded.step src op z
+    let rest := Seeded.exec src ops r.2
+    ((op, r.1) :: rest.1, rest.2)
+
+/-- The seed stored after a script (the last value assigned, the initial one where none was). -/
+def seedAfter (s : Nat) (script : List SOp) : Nat :=
+  script.foldl (fun s op => match op with | .setSeed t => t | .v _ => s) s
+
 end PdtVerif.Batching
